@@ -2855,7 +2855,19 @@ def c08(tier):
         if not ok:
             log(tail)
             raise ToolTrouble("Apalache did not discharge BigProof!Laws")
-        rep.notes["apalache_obligations"] = {"obligations": 1, "discharged": 1, "spec": "BigProof.tla (Laws: limb split, add, sub, <, <= agree with integer arithmetic for all naturals, base 2^24)"}
+        # the central ZIP64 record for unbounded values: decoding inverts emission for ALL naturals and forced subsets; under the rule
+        # of defect D17 (values ABOVE the sentinel only) Apalache must produce a counterexample
+        ok, tail = apalache("Zip64Proof.tla", ["--init=AnyInit", "--inv=DecodeInvertsEmit", "--length=0"], wd, "zip64proof")
+        if not ok:
+            log(tail)
+            raise ToolTrouble("Apalache did not discharge Zip64Proof!DecodeInvertsEmit")
+        bad, tail = apalache("Zip64Proof.tla", ["--init=OldInit", "--inv=DecodeInvertsEmit", "--length=0"], wd, "zip64proof-old")
+        if bad or "Checker has found an error" not in tail:
+            log(tail)
+            raise ToolTrouble("Apalache did not refute the pre-D17 rule")
+        rep.neg_controls.append({"spec_mutant": "Zip64Proof with the pre-D17 rule (OldInit)", "expected_violation": "DecodeInvertsEmit", "found": True})
+        rep.notes["apalache_obligations"] = {"obligations": 2, "discharged": 2, "spec": "BigProof.tla (Laws: limb split, add, sub, <, <= agree with integer arithmetic for all naturals, base 2^24); "
+                                             "Zip64Proof.tla (DecodeInvertsEmit: sentinel-keyed decoding of the central ZIP64 record returns usize, csize, offset for ALL naturals and every forced subset)"}
     # the reader side at model level: every ZIP64 layout an independent producer may emit is decoded exactly (Producer.tla)
     mc_producer(rep, wd, tier, mutants=("cs_first", "either_both", "always_all", "first_record_only"), one_entry_only=True)
     # ... and every realisable one-entry archive of that model that carries ZIP64 records is built by the independent builder and read
